@@ -875,6 +875,18 @@ def run_cli_item(item, col):
                             if P == 3 and not item.get("full") and n_chunks != 2:
                                 ops = [op for op in ops if op[1][0] == "none"]
                             cli_case(ctx, batch, n_chunks, scorer_name, d, col, ops)
+        # more candidates than the small enumeration has: chunk counts that do not divide the number of candidates, first
+        # pick of a batch and later picks (the count of candidates changes with the batch)
+        for P in item.get("wide", []):
+            sizes = [1 + (j % 2) for j in range(P)]
+            for obs in ([0] * P, [1] + [0] * (P - 1)):
+                ctx = Ctx({"sizes": sizes, "variant": "alt", "obs": list(obs)})
+                ctx.screen.save_h5(os.path.join(d, "data.h5"))
+                un = [i for i in ctx.all_ids if i not in ctx.observed_ids]
+                for batch in ([], [un[1]], [un[0], un[-1]]):
+                    for n_chunks in (3, 4, 6, 7):
+                        perms = [list(range(n_chunks)), list(range(n_chunks))[::-1]]
+                        cli_case(ctx, batch, n_chunks, "SizeScorer", d, col, [(perms[0], ["none"]), (perms[1], ["none"])])
     finally:
         shutil.rmtree(d, ignore_errors=True)
 
@@ -948,6 +960,7 @@ def plan(tier, seed):
     items.append({"kind": "cover-large", "plates": 700, "observed": 1, "n_chunks": [3, 50]})
     # CLI
     items.append({"kind": "cli", "plates": [1, 2, 3], "full": not quick})
+    items.append({"kind": "cli", "plates": [], "wide": [5, 6, 7, 10]})
     return items
 
 
